@@ -35,10 +35,11 @@ def const_graph_unary(fun):
             return vals[node]
         else:
             start_node = ConstGraphNode.new_root()
-            end_value, end_node = trace(start_node, _fun.pop(), x)
+            end_value, end_node = trace(start_node, _fun[0], x)
             if end_node is None:
                 raise Exception("Output is independent of input")
             graph.append(list(toposort(end_node))[::-1])
+            _fun.pop()  # only now: a recording call that raised must leave the wrapper usable
             return end_value
 
     return maybe_cached_fun
